@@ -273,6 +273,9 @@ func (w *world) checkTTLContext(sc *scenario) {
 
 		c.Assert(b.userVal == interface{}("user-"+itoa(g.idx)), "build-ctx-values", "builder for g%d saw ctx.Value(userKey) = %v", g.idx, b.userVal)
 
+		rs, _ := b.scopeVal.(*requestScope)
+		c.Assert(rs != nil && rs.id == g.idx, "build-ctx-values", "builder for g%d saw ctx.Value(scopeKey) = %v, want the caller's request scope object (a value that implements context.Context)", g.idx, b.scopeVal)
+
 		if bgBuild {
 			c.Class("background-build-ctx")
 			c.Assert(b.ctxDoneNil && b.ctxErr == nil && !b.hasDeadline, "background-ctx-not-detached",
